@@ -196,4 +196,19 @@ CHECKS = {
         'trusted_base': [KERNEL, AX, TIE, 'model Pangaea/Props/Compare.lean is a hand transcription of the == / <=> built-ins of int, float, str, arr, baseobj, nil props and of Comparable.pangaea / BaseObj.pangaea'],
         'assumptions': ['floats restricted to exactly representable halves (no NaN)', 'objects bind every name once (C09)', 'maps, ranges, functions, Either and error values are covered by the direct law oracle only'],
     },
+    'C13': {
+        'lean_modules': ['Pangaea.Theorems.C13'],
+        'theorem_modules': ['Pangaea.Theorems.C13'],
+        'theorems': ['Pangaea.C13.try_commutes', 'Pangaea.C13.skip_after_failure', 'Pangaea.C13.no_failure', 'Pangaea.C13.accessors_val',
+                     'Pangaea.C13.accessors_err', 'Pangaea.C13.abandon_is_plain'],
+        'harness': ['C13'],
+        'shards': 8,
+        'spec_is_function': True,
+        'rule': 'random chains of 0-5 steps over int receivers: operator calls (.+ .- .* .// .%), property calls (.-%), literal calls (identity, doubling, x.nonexistent, raise of each of 9 error kinds at any step), '
+                'followed by one of 9 accessors (A, val, err, val?, err?, or, catch K, ignore K, abandon); each chain also evaluated unwrapped. Model comparison (value / error kind) for the wrapped accessor result and '
+                'the plain chain; direct oracle: the wrapped chain holds exactly the plain chain\'s value, or its error kind AND message; 8 property-call shapes through the proxy. non-trivial = at least two steps; distinct by program text',
+        'trusted_base': [KERNEL, AX, TIE, 'model Pangaea/Props/Either.lean is a hand transcription of Obj#try, EitherVal#fmap, EitherErr props and the native Either*/Wrappable sources; steps are arbitrary functions in the theorems'],
+        'assumptions': ['steps are names that the Either object does not define itself (its own accessors and Obj built-ins such as S, A, keys, sum apply to the wrapper by design)',
+                        'operator steps are written as method calls (.+(1)); an infix operator applied to an Either is not proxied (built-in operator dispatch does not consult _missing)'],
+    },
 }
